@@ -7,7 +7,7 @@ PID = "C05"
 GEN = ["primality"]
 LEAN = ["Ymq.Props.C05"]
 AUDIT = "Ymq.Audit.C05"
-THEOREMS = ["Ymq.C05.abort_consistent", "Ymq.C05.abort_stops"]
+THEOREMS = ['Ymq.C05.abort_never_wrong_product', 'Ymq.C05.abort_consistent_partial', 'Ymq.C05.abort_consistent_not_rho', 'Ymq.C05.abort_stops']
 PROFILES = ["release", "chk"]
 TIMEOUT = 120.0
 LAT_BOUND_MS = 15000
@@ -20,7 +20,7 @@ MODELLED = ["the abort poll of factor_impl (lib.rs:431) and the aborted-sieve pa
 UNMODELLED = ["poll points inside the sieves / ECM (siqs.rs, mpqs.rs, qsieve.rs, ecm.rs) appear in the model only through their result "
               "(empty divisor list / None); wall-clock latency is a runtime behaviour and is measured, not proved",
               "P-1, rho and ECM128 have no poll point: their whole stage is one work unit"]
-HYPOTHESES = ["OracleOK (sub-algorithms return genuine splits)"]
+HYPOTHESES = ['OracleOK', 'SelectorPre', 'RhoNeverFails (only for alg = rho)']
 
 
 def cases(tier, rng, extended=False):
